@@ -3,6 +3,8 @@ import Sekai.Model.Ubi
 import Sekai.Model.Collect
 import SekaiProofs.Lemmas.DecRound
 import SekaiProofs.Lemmas.Spend
+import Sekai.Gen.Keys
+import SekaiProofs.Lemmas.Keys
 /-! # C18 — Spending pools, UBI and collectives pay only the entitled and only what is owed
 
 Theorems over the executable models `Sekai.Spend`, `Sekai.Ubi`, `Sekai.Collect` (tied to the Go code by the
@@ -1411,5 +1413,17 @@ taken from the bonds in the same account: 7 units of reward, two pools of weight
 (finding `C18/collectives-distribution/rounded-portions-exceed-rewards`) -/
 theorem distribution_rounding_counterexample :
     Collect.portionOf 7 (Dec.one / 2) + Collect.portionOf 7 (Dec.one / 2) = 8 := by decide
+
+/-! ### Key spaces of the stores this model keeps in separate maps (table `Gen.Keys`)
+
+The model keeps each record kind of a module in a field of its own; the module keeps them in ONE store under byte prefixes.
+No prefix extends another (checked on the regenerated table), so by `Sekai.Keys.keys_of_different_kinds_differ` a key of one
+kind is never a key of another kind. -/
+
+theorem spending_key_spaces_disjoint : Sekai.Keys.disjoint Sekai.Gen.Keys.stores "spending" = true := by decide +kernel
+
+theorem collectives_key_spaces_disjoint : Sekai.Keys.disjoint Sekai.Gen.Keys.stores "collectives" = true := by decide +kernel
+
+theorem ubi_key_spaces_disjoint : Sekai.Keys.disjoint Sekai.Gen.Keys.stores "ubi" = true := by decide +kernel
 
 end Sekai.Props.C18
